@@ -1,6 +1,7 @@
 package main
 
 import (
+	"sort"
 	"reflect"
 	"encoding/json"
 	"fmt"
@@ -105,6 +106,46 @@ func compareSchema(r *rep.Report, a *analysed, reply map[string]any, real map[st
 			}
 			if !found {
 				r.Disagree(rep.Disagreement{Tie: "c08.create-table", Input: map[string]any{"case": a.Case.ID, "table": name, "sources": a.Case.Sources()}, Model: tm["create"], Impl: got})
+				// column by column against the documented mapping (the model's statement is the
+				// mapping of the C08 theorems, and agrees with the real text on the unchanged tree)
+				if got != "" {
+					colLines := func(txt string) map[string]string {
+						out := map[string]string{}
+						i, j := strings.Index(txt, "("), strings.LastIndex(txt, ")")
+						if i < 0 || j <= i {
+							return out
+						}
+						depth, start := 0, i+1
+						body := txt[:j]
+						for k := i + 1; k <= len(body); k++ {
+							if k == len(body) || (body[k] == ',' && depth == 0) {
+								if fl := strings.Fields(body[start:k]); len(fl) > 0 {
+									out[fl[0]] = strings.Join(fl[1:], " ")
+								}
+								start = k + 1
+								continue
+							}
+							switch body[k] {
+							case '(':
+								depth++
+							case ')':
+								depth--
+							}
+						}
+						return out
+					}
+					mc, rc := colLines(tm["create"].(string)), colLines(got)
+					var cols []string
+					for c := range mc {
+						cols = append(cols, c)
+					}
+					sort.Strings(cols)
+					for _, c := range cols {
+						if sqlTokens(mc[c]) != sqlTokens(rc[c]) {
+							r.Fail(rep.Failure{Signature: "c08:column-differs-from-the-documented-mapping", What: fmt.Sprintf("table %s, column %s is declared `%s`; the Go→SQL mapping of the property gives `%s`", name, c, rc[c], mc[c]), Input: in, Observed: got})
+						}
+					}
+				}
 			}
 			// the Go side directly: the id field, and only it, is `serial PRIMARY KEY`
 			if got != "" {
@@ -629,6 +670,10 @@ func runC04(r *rep.Report, thorough bool) error {
 			}
 			for i, cls := range classes {
 				r.Hist("corruption:" + cls)
+				// corrupting a document that the validators already refuse says nothing
+				if res[0] != "true" && res[0] != "null" {
+					continue
+				}
 				if res[i+1] != "false" {
 					cb, _ := json.Marshal(docs[i+1])
 					in2 := map[string]any{"case": ln.Case, "table": ln.Type, "column": col, "document": raw, "corrupted": string(cb), "class": cls, "sources": a.Case.Sources()}
